@@ -173,7 +173,7 @@ th!(c08_q_has_naks_exact, 8, {
 });
 
 //# funcs=RecvTransaction::process_pdu(Prompt),send_pdu,answer_prompt,get_all_naks,send_naks; bound=after EOF, 1 held segment, NAK prompt answered at the next send opportunity; stubs=S1,S2,S3
-th!(c08_t_all_naks_prompt_k1, 8, {
+th!(c08_x_all_naks_prompt_k1, 8, {
     let ch = chans();
     let (mut t, b, n, has_md) = after_eof(1, &ch, 64, Some(false));
     let p: u64 = kani::any();
@@ -252,9 +252,9 @@ th!(c08_q_eof_then_nak_k1, 8, { eof_then_nak(1, false, false) });
 //# funcs=RecvTransaction::process_pdu(EoF),get_all_naks; bound=as k0 with one request already queued when the EOF arrives: after EOF the queue is exactly the missing bytes; stubs=S1,S2,S3
 th!(c08_q_eof_then_nak_prequeued, 8, { eof_then_nak(0, true, false) });
 //# funcs=RecvTransaction::process_pdu(EoF),get_all_naks,Segments::gaps; bound=EOF size symbolic < 2^32, metadata missing, nothing held (may be inconclusive: time); stubs=S1,S2,S3
-th!(c08_t_eof_then_nak_sym_k0, 8, { eof_then_nak(0, false, true) });
+th!(c08_x_eof_then_nak_sym_k0, 8, { eof_then_nak(0, false, true) });
 //# funcs=RecvTransaction::process_pdu(EoF),get_all_naks,Segments::gaps; bound=EOF size symbolic, metadata missing, 1 held segment (any sub-range) (may be inconclusive: time); stubs=S1,S2,S3
-th!(c08_t_eof_then_nak_sym_k1, 8, { eof_then_nak(1, false, true) });
+th!(c08_x_eof_then_nak_sym_k1, 8, { eof_then_nak(1, false, true) });
 
 //# funcs=RecvTransaction::send_pdu,send_naks,get_header; bound=queue of 2 symbolic requests (+ 0-0 marker present or not, per instance), file size < 2^32: the NAK PDU is well-formed, scope = first start..last end, requests kept in order; stubs=S1,S2,S3
 th!(c08_q_send_naks_wellformed, 8, {
@@ -355,7 +355,7 @@ fn immediate_new_gap(delayed: bool) {
 }
 th!(c08_q_immediate_new_gap, 8, { immediate_new_gap(false) });
 //# funcs=RecvTransaction::process_pdu(FileData) immediate procedure with delay,handle_timeout (delayed NAK); bound=both steps in one harness, delay 2 s (may be inconclusive: time); stubs=S1,S2,S3,S5
-th!(c08_t_immediate_delayed_gap_two_steps, 8, { immediate_new_gap(true) });
+th!(c08_x_immediate_delayed_gap_two_steps, 8, { immediate_new_gap(true) });
 //# funcs=RecvTransaction::process_pdu(FileData) immediate procedure with delay,until_timeout; bound=immediate procedure, delay 2 s, nothing held, 1 byte at any offset in (0, 2^30): nothing queued yet, one delay timer for exactly the new gap, armed to fire within 2 s; stubs=S1,S2,S3,S5
 th!(c08_q_immediate_delayed_gap_armed, 8, {
     let ch = chans();
@@ -460,6 +460,48 @@ th!(c08_q_split_over_pdus, 8, {
         sent += 1;
     }
     assert!(sent == 2 && reqs == 4, "all queued requests leave, two per PDU");
+    kani::cover!(true, "end");
+    forget(t);
+    forget(ch);
+});
+
+//# funcs=RecvTransaction::process_pdu(Metadata) after EOF,check_finished,has_naks; bound=4-byte file, (2,4) held, EOF received, metadata arrives late while the queue holds the 0-0 marker and the request for the missing head (0,2): the request for the missing data survives, something stays due (does not finish: 24 GB, rule 7 - the reinterpreted FileData arm is walked); stubs=S1,S2,S3,S5
+th!(c08_x_late_metadata_keeps_requests, 8, {
+    let ch = chans();
+    link_libc();
+    let mut s = cfdp_daemon::verif::Segments::new();
+    s.merge((2, 4));
+    let (t0, _b, _n, _md) = after_eof_with(s, [2, 4, 0, 0], 1, 4, &ch, 64, Some(false));
+    let mut p = t0.verif_into_parts();
+    set_field(
+        &mut p.naks,
+        VecDeque::from(vec![SegmentRequestForm { start_offset: 0, end_offset: 0 }, SegmentRequestForm { start_offset: 0, end_offset: 2 }]),
+    );
+    let mut t = RecvTransaction::verif_from_parts(p);
+    let md = MetadataPDU {
+        closure_requested: false,
+        checksum_type: ChecksumType::Modular,
+        file_size: 4,
+        source_filename: "s".into(),
+        destination_filename: "d".into(),
+        options: vec![],
+    };
+    let r = t.process_pdu(directive(TransmissionMode::Acknowledged, Direction::ToReceiver, Operations::Metadata(md)));
+    forget(r);
+    let probe: u64 = kani::any();
+    kani::assume(probe < 2);
+    let (q, tail) = t.verif_naks().as_slices();
+    assert!(tail.is_empty());
+    let mut covers = false;
+    let mut i = 0;
+    while i < 3 {
+        if i < q.len() && q[i].start_offset <= probe && probe < q[i].end_offset {
+            covers = true;
+        }
+        i += 1;
+    }
+    assert!(covers, "the queued request for missing data survives the arrival of the metadata");
+    assert!(t.verif_recv_state() == VRecvState::ReceiveData && verif::recv_has_pdu_to_send(&t), "data is still missing: a NAK stays due");
     kani::cover!(true, "end");
     forget(t);
     forget(ch);
